@@ -395,6 +395,9 @@ func (ctx *_builtinJSON_stringifyContext) ja(array *Object) {
 	length := toLength(array.self.getStr("length", nil))
 	if length == 0 {
 		ctx.buf.WriteString("[]")
+		if ctx.gap != "" {
+			ctx.indent = stepback
+		}
 		return
 	}
 
@@ -472,6 +475,9 @@ func (ctx *_builtinJSON_stringifyContext) jo(object *Object) {
 
 	if empty {
 		ctx.buf.Truncate(mark)
+		if ctx.gap != "" {
+			ctx.indent = stepback
+		}
 	} else {
 		if ctx.gap != "" {
 			ctx.buf.WriteByte('\n')
